@@ -267,7 +267,21 @@ func (r *run) c07Struct(t typeInfo, thorough bool) {
 				raw = append(raw, []byte(string(rune(c)))...)
 			}
 			if t.name == "DPT_28001" {
-				try("y " + hx(raw))
+				// a Go string holds any bytes: a third of the values are not well-formed UTF-8 (ISO 8859-1
+				// text, sequences cut short, lone continuation bytes); the encoding carries them verbatim
+				if i%3 == 0 && len(raw) > 0 {
+					for k := 0; k < 1+r.rnd.Intn(3); k++ {
+						raw[r.rnd.Intn(len(raw))] = byte(0x80 + r.rnd.Intn(0x80))
+					}
+					if i%6 == 0 {
+						raw = append(raw, []byte(string(rune(0x4e2d)))[:2]...)
+					}
+				}
+				if len(raw) == 0 {
+					try("y -")
+				} else {
+					try("y " + hx(raw))
+				}
 			} else if l == 0 {
 				try("s -")
 			} else {
